@@ -448,6 +448,189 @@ def _e2e_worker(payload):
     return asyncio.run(main())
 
 
+def _startup_worker(payload):
+    """
+    The start-up window of a worker, over real loopback TCP (the repository's NotifyServer on its port 6000 and the workers' own
+    NotifyClient objects, nothing hand-fed): worker 2 is up and connected; worker 1 has just been set up - its notifier connects
+    two seconds later - and accepts event `a` at once; then its connect happens; then `b` (worker 1) and `c` (worker 2) follow.
+    Returns the trace, or None when the port is not available.
+    """
+    from nostr_relay import notifier, web
+    from nostr_relay.rate_limiter import NullRateLimiter
+    from .. import storedrv as D
+    from ..universe import Universe
+    from .storefam import E
+    import falcon
+    import json as _json
+    import socket
+
+    uni = Universe([E("a", "A", 1, 10, [["t", "x"]]), E("b", "A", 1, 20, [["t", "x"]]), E("c", "B", 1, 30, [["t", "x"]])])
+    K = 4
+    probe = socket.socket()
+    probe.setsockopt(socket.SOL_SOCKET, socket.SO_REUSEADDR, 1)
+    try:
+        probe.bind(("127.0.0.1", 6000))
+    except OSError:
+        return None
+    finally:
+        probe.close()
+
+    async def main():
+        with C.Scratch() as d:
+            real_sleep = asyncio.sleep
+            gate = asyncio.Event()
+            gated = []
+
+            async def sleep(delay, *a, **k):
+                # the notifier's connect delay: immediate for the worker that is already up, held for the one that is starting
+                if delay == 2:
+                    if gated:
+                        await gate.wait()
+                    return await real_sleep(0)
+                return await real_sleep(delay, *a, **k)
+
+            import types
+
+            notifier.asyncio = types.SimpleNamespace(**{k: getattr(asyncio, k) for k in dir(asyncio) if not k.startswith("__")})
+            notifier.asyncio.sleep = sleep
+            log = []
+            sts = {}
+            handlers = []
+            server = notifier.NotifyServer()
+            server.log = _Quiet()
+            server.start()
+            await real_sleep(0.1)
+            try:
+                inbox = {w: asyncio.Queue() for w in (1, 2)}
+
+                def mk(w):
+                    async def recv():
+                        x = await inbox[w].get()
+                        if x is None:
+                            raise falcon.WebSocketDisconnected()
+                        return x
+
+                    async def send(text):
+                        m = _json.loads(text)
+                        if m[0] == "EVENT":
+                            log.append(("Push", w, m[2]["id"]))
+
+                    async def close(code=1000):
+                        pass
+                    return recv, send, close
+
+                for w in (2, 1):
+                    if w == 1:
+                        gated.append(1)         # from now on a connect delay is held until the gate opens
+                    sts[w] = await D.open_storage("sql", d, num_concurrent_adds=1)
+                    orig_get = sts[w].get_event
+
+                    async def get_event(hexid, w=w, orig_get=orig_get):
+                        log.append(("Lookup", w, hexid))
+                        return await orig_get(hexid)
+
+                    sts[w].get_event = get_event
+                    r, sn, cl = mk(w)
+                    handlers.append(asyncio.create_task(web.start_client(sts[w], sn, r, cl, _Quiet(), rate_limiter=NullRateLimiter(),
+                                                                         remote_addr="10.0.0.%d" % w)))
+                    inbox[w].put_nowait(_json.dumps(["REQ", "live", {"kinds": [1]}]))
+                    await real_sleep(0.15)
+                trace = []
+                idsym = {uni.conc[s_]["id"]: s_ for s_ in uni.order}
+
+                def flush():
+                    for kind, w, hexid in log:
+                        if kind == "Lookup":
+                            trace.append({"a": "Lookup", "w": w, "chunk": [[idsym[hexid], k + 1] for k in range(K)] if hexid in idsym
+                                          else [["?" + hexid[:10], len(hexid) // 2]]})
+                        else:
+                            trace.append({"a": "Push", "w": w, "i": idsym.get(hexid, "?")})
+                    del log[:]
+
+                plan = [(1, "a", True), (1, "b", False), (2, "c", False)]
+                for w, sym, early in plan:
+                    if not early and not gate.is_set():
+                        gate.set()                      # worker 1's delayed connect happens now
+                        await real_sleep(0.3)
+                    await sts[w].add_event(D._clone(uni.conc[sym]))
+                    trace.append({"a": "Announce", "w": w, "i": sym})
+                    await real_sleep(0.3)
+                    flush()
+                await real_sleep(0.3)
+                flush()
+                trace = [ln for ln in trace if not (ln["a"] == "Push" and ln["i"] in [s_ for ww, s_, _ in plan if ww == ln["w"]]
+                                                    and not any(x["a"] == "Lookup" and x["w"] == ln["w"] and x["chunk"][0][0] == ln["i"] for x in trace))]
+                trace.append({"a": "End"})
+                os.write(wfd, _json.dumps(trace).encode())
+                os._exit(0)
+            finally:
+                notifier.asyncio = asyncio
+                for w in inbox:
+                    inbox[w].put_nowait(None)
+                await real_sleep(0.05)
+                for t in handlers:
+                    t.cancel()
+                await asyncio.gather(*handlers, return_exceptions=True)
+                for w in sts:
+                    if sts[w].notifier and sts[w].notifier._task:
+                        sts[w].notifier._task.cancel()
+                    await D.close_storage(sts[w])
+                # (Python 3.12: Server.wait_closed() waits for every connection; do not wait for that longer than a moment)
+                for wr in list(server.connections.values()):
+                    try:
+                        wr.close()
+                    except Exception:
+                        pass
+                if server._task:
+                    server._task.cancel()
+                    try:
+                        await asyncio.wait_for(asyncio.gather(server._task, return_exceptions=True), 2)
+                    except Exception:
+                        pass
+
+    # The scenario runs in a forked child that reports its trace and leaves with os._exit: on Python 3.12 tearing down a
+    # server whose connections were cancelled (Server.wait_closed) can hang, and nothing after the trace is of interest.
+    import os
+    import select
+
+    r, wfd = os.pipe()
+    pid = os.fork()
+    if pid == 0:
+        code = 0
+        try:
+            os.close(r)
+            tr = asyncio.run(main())
+            os.write(wfd, _json.dumps(tr).encode())
+        except BaseException as e:      # noqa: B902
+            os.write(wfd, _json.dumps({"error": "%s: %s" % (type(e).__name__, e)}).encode())
+            code = 1
+        finally:
+            os._exit(code)
+    os.close(wfd)
+    data = b""
+    deadline = 90.0
+    import time as _time
+
+    t0 = _time.time()
+    while _time.time() - t0 < deadline:
+        ready, _, _ = select.select([r], [], [], 1.0)
+        if ready:
+            chunk = os.read(r, 65536)
+            if not chunk:
+                break
+            data += chunk
+    os.close(r)
+    try:
+        os.kill(pid, 9)
+    except ProcessLookupError:
+        pass
+    os.waitpid(pid, 0)
+    got = _json.loads(data.decode()) if data else None
+    if not isinstance(got, list):
+        raise RuntimeError("the start-up scenario failed to run: %r" % (got,))
+    return got
+
+
 def run(prop, tier, seed, **kw):
     from .. import pool
 
@@ -506,6 +689,28 @@ def run(prop, tier, seed, **kw):
                 chunkings[k], b[0], b[1], tr[b[1] - 1], tr)
             out.violation(what, {"formula": b[0], "line": tr[b[1] - 1], "config": "e2e"}, None)
     out.notes["end_to_end_runs"] = len(e2e)
+    # the start-up window of a worker, over real loopback TCP (one run; needs the notifier's port)
+    st_tr = None
+    for _ in range(5):
+        st_tr = pool.map_in_workers("harness.checks.c20", "_startup_worker", [None], config={"run_notifier": True})[0]
+        if st_tr is not None:
+            break
+        import time as _time
+
+        _time.sleep(3)
+    if st_tr is None:
+        out.notes["startup_scenario"] = "skipped: port 6000 of the notifier was not available"
+    else:
+        v3, vstats3 = tracedata.validate("Notifier_Trace", defs, [st_tr], batch=1)
+        out.add_model(vstats3)
+        out.cov["evaluations"] += 1
+        out.cov["traces_validated_against_impl"] += 1
+        out.notes["startup_scenario"] = st_tr
+        for b in v3[0]:
+            what = "C20 start-up window (real NotifyServer / NotifyClient over loopback; worker 1 accepts `a` before its notifier connects): %s at line %d; trace %s" % (
+                b[0], b[1], st_tr)
+            if out.violation(what, {"formula": b[0], "line": st_tr[b[1] - 1], "config": "startup", "trace": st_tr}, None):
+                break
     design.join(out)
     out.cov["distinct_nontrivial"] = len(distinct)
     out.cov["rule"] = ("behaviours of Notifier.tla from TLC -simulate (announce / deliver n symbols up or down / one peer drop; 3 "
